@@ -1,5 +1,6 @@
 import LanceModel.C11.RefineLemmas
 import LanceModel.C11.IdLemmas
+import LanceModel.C11.NoNullLemmas
 /-
 C11 — write / append / overwrite / read returns exactly the rows written.
 
@@ -174,23 +175,10 @@ theorem create_scan (t' : Table) (op : WriteOp) (h : applyWrite none op = (some 
 theorem store_faithful (ver : Ver) (spec : Spec) (r : Row) (h : ver ≠ .legacy) : storeRow ver spec r = r := by
   simp [storeRow, h]
 
-theorem storeCells_of_no_null (spec : Spec) (i : Nat) (r : Row) (h : ∀ c ∈ r, c ≠ none) :
-    storeCells spec i r = r := by
-  induction r generalizing i with
-  | nil => rfl
-  | cons c cs ih =>
-    have hc : c ≠ none := h c (by simp)
-    cases c with
-    | none => exact absurd rfl hc
-    | some v => simp [storeCells, ih (i + 1) (fun c hc => h c (by simp [hc]))]
-
 /-- … and in every version, legacy included, when the row holds no NULL -/
 theorem store_faithful_of_no_null (ver : Ver) (spec : Spec) (r : Row) (h : ∀ c ∈ r, c ≠ none) :
     storeRow ver spec r = r := by
-  unfold storeRow
-  split
-  · exact storeCells_of_no_null spec 0 r h
-  · rfl
+  exact storeRow_no_null ver spec r h
 
 /-! ## 3. histories -/
 
@@ -285,6 +273,21 @@ theorem C11_partial (ops : List WriteOp) (h : ∀ op ∈ ops, op.ver ≠ some .l
     absOpt (run none ops) = Flat.run idealStore none ops := by
   rw [history_scan]
   exact flat_run_ideal none ops (by simp) h
+
+/-- `C11_partial_plain`: legacy included — the full conclusion for every history, with any storage versions, whose
+    writes all use one schema `sp` (distinct extra columns) and carry rows of its width without NULL.  Together with
+    `C11_partial` this leaves exactly the histories that store a NULL (written, or filled in for a missing column)
+    while a legacy table is — or may be — in place. -/
+theorem C11_partial_plain (sp : Spec) (hd : distinct sp.extras = true) (ops : List WriteOp)
+    (h : ∀ op ∈ ops, PlainOp sp op) :
+    absOpt (run none ops) = Flat.run idealStore none ops := by
+  rw [history_scan]
+  exact flat_run_plain sp hd none ops (by simp) h
+
+example : PlainOp ⟨1, ['u']⟩
+    { mode := .create, p := ⟨5, 3, false⟩, ver := some .legacy, spec := ⟨1, ['u']⟩, batches := [[[some 1, some 2]]] } := by
+  refine ⟨rfl, ?_⟩
+  decide
 
 /-- the legacy format reads a NULL of a fixed-width column back as 0 (known finding `legacy_nulls_lost`; reproduced
     on the real writer: `create v=legacy k=1 n` scans `0`) -/
